@@ -105,3 +105,20 @@ structure FwerCfg (α : Type) where
 /-- `sum(1 / i for i in range(1, m + 1))` -/
 def harmonic {α : Type} [Field α] (m : ℕ) : α :=
   ((List.range m).map (fun (i : ℕ) => (1 : α) / ((i : α) + 1))).sum
+
+/-- the expected ratio of a `SampleRatio` metric: a number, or the per-variant mapping evaluated at
+(treatment, control) -/
+inductive RatioSpec (α : Type)
+  | scalar (r : α)
+  | mapping (rt rc : α)
+
+/-- the parameters of a `SampleRatio` metric object -/
+structure SRCfg (α : Type) where
+  ratio : RatioSpec α
+  method : String
+  correction : Bool
+
+structure SRResult (α : Type) where
+  control : α
+  treatment : α
+  pvalue : α
